@@ -38,12 +38,14 @@ type ConsultedRule struct {
 	Rule scen.Rule
 }
 
-// Consulted is the documented delegation walk: the rules of a file in declared
-// order; a delegated file (a rule file named like the rule) is entered only
-// through a matching rule and only once; a matching terminating rule that has
-// a delegated file cuts off the later rules of its own file. The returned
-// order is file order with delegated files expanded depth-first after the
-// delegating file's own rules.
+// Consulted is the documented delegation walk (docs/design-document.md,
+// "Identifying Authorized Signers"): pre-order depth first over the delegation
+// graph rooted at the primary rule file; a delegated file (a rule file named
+// like the rule) is entered only through a matching rule and only once; the
+// allow rule is never consulted; a matching terminating rule that has a
+// delegated file cuts off the later rules of its own file. Callers compare the
+// result as a set (the statement fixes which rules are consulted, not the
+// order in which their verifiers are tried).
 func Consulted(p scen.Policy, path string) []ConsultedRule {
 	files := map[string]scen.RuleFile{}
 	for _, f := range p.Files {
@@ -57,7 +59,6 @@ func Consulted(p scen.Policy, path string) []ConsultedRule {
 	out := []ConsultedRule{}
 	var visit func(f scen.RuleFile)
 	visit = func(f scen.RuleFile) {
-		entered := []scen.RuleFile{}
 		for _, r := range f.Rules {
 			if !ruleMatches(r, path) {
 				continue
@@ -68,15 +69,11 @@ func Consulted(p scen.Policy, path string) []ConsultedRule {
 			}
 			if df, has := files[r.Name]; has {
 				seen[r.Name] = true
-				entered = append(entered, df)
+				visit(df)
 				if r.Terminating {
-					break
+					return
 				}
 			}
-		}
-		// most recently entered delegated file first (depth-first prepend)
-		for i := len(entered) - 1; i >= 0; i-- {
-			visit(entered[i])
 		}
 	}
 	visit(root)
